@@ -27,6 +27,19 @@ def main():
     ctx = Ctx(prop, a.tier, seed)
     try:
         lean = LeanBuild.ensure()
+        if a.tier == "thorough" and lean.get("build_ok"):
+            # independent re-check of the compiled property theorems by the toolchain's external checker
+            import subprocess
+
+            from .core import LEAN_DIR
+
+            mods = [f"PtaProofs.Props.{prop}"] + (["PtaProofs.Props.E2E"] if prop in ("C01", "C02", "C03", "C04") else [])
+            mods = [m for m in mods if os.path.exists(os.path.join(LEAN_DIR, *m.split(".")) + ".lean")]
+            t0 = time.time()
+            p = subprocess.run(["lake", "env", "leanchecker"] + mods, cwd=LEAN_DIR, capture_output=True, text=True, timeout=1800)
+            lean["leanchecker"] = {"modules": mods, "rc": p.returncode, "wall_s": round(time.time() - t0, 1), "output": (p.stdout + p.stderr)[-500:]}
+            if p.returncode != 0:
+                raise InfraError("leanchecker rejected the compiled proofs: " + (p.stdout + p.stderr)[-1500:])
         mod = importlib.import_module(f"harness.props.{prop.lower()}")
         rule = mod.run(ctx)
         if lean.get("generated_broken") and prop in getattr(mod, "USES_GENERATED", ()):
